@@ -77,7 +77,8 @@ def apply_R(eng, st, selfv, index, triple, what):
             s.writes.add((selfv.oid, "abs"))
             outs.append((s, (SInt(z3.simplify(off1)), index)))
         else:
-            outs.append((s, RaiseExc(SomeException, f"{what} failed", tag=what)))
+            from contracts.message_leaf import leaf_failure_class
+            outs.append((s, RaiseExc(leaf_failure_class(), f"{what} failed", tag=what)))
     return outs
 
 
@@ -129,7 +130,8 @@ class SetAttributeSingleAbs(Contract):
                 s.writes.add((selfv.oid, "abs"))
                 outs.append((s, SInt(fo(*a))))
             else:
-                outs.append((s, RaiseExc(SomeException, "leaf failed", tag="leaf")))
+                from contracts.message_leaf import leaf_failure_class
+                outs.append((s, RaiseExc(leaf_failure_class(), "leaf failed", tag="leaf")))
         return outs
 
 
